@@ -119,6 +119,54 @@ func builtinRules(c *Ctx, names []string, ref *effRef, rulePrefix string) {
 					fmt.Sprintf("effects reachable after the subject was found missing: %v (documented exception: %q)", leaked, ref.MissingEx[name]))
 			}
 		}
+		// once the subject was read, the write happens unless something failed: a success return that skips the
+		// write must sit under a failure fact (an error value, a failed assertion or lookup), not under a
+		// comparison of ordinary values
+		if rulePrefix == "C11" && len(writes) > 0 && len(reads) > 0 {
+			isWrite := func(in ssa.Instruction) bool {
+				for _, w := range writes {
+					if in == ssa.Instruction(w.Call) {
+						return true
+					}
+				}
+				return false
+			}
+			for _, rd := range reads {
+				allInstrs(f, func(in ssa.Instruction) {
+					ret, ok := in.(*ssa.Return)
+					if !ok || ret.Block() == f.Recover || retError(ret) == "nonnil" {
+						return
+					}
+					if !reachAvoid(rd.Call, ret, isWrite) {
+						return
+					}
+					why := ""
+					for _, ec := range controlling(ret.Block()) {
+						if !reachableFrom(rd.Call, ec.If.Instrs[len(ec.If.Instrs)-1]) {
+							continue // decided before the subject was read
+						}
+						switch cd := ec.Cond.(type) {
+						case *ssa.BinOp:
+							if isNilConst(cd.Y) && ((cd.Op == token.NEQ && ec.Pol) || (cd.Op == token.EQL && !ec.Pol)) {
+								ts := cd.X.Type().String()
+								if ts == "error" || strings.HasSuffix(ts, "errchain.PlError") {
+									why = "error " + path(cd.X)
+								}
+							}
+						case *ssa.Extract:
+							if cd.Index == 1 && !ec.Pol {
+								why = "failed " + path(cd.Tuple)
+							}
+						}
+					}
+					if _, exc := ref.MissingEx[name]; exc {
+						why = "documented exception"
+					}
+					r.Ob("WRITE-UNLESS-FAILED", fmt.Sprintf("builtin %s return #%d after %s without its write", name, retOrdinal(f, ret), rd.Desc), t.Pos(ret.Pos()), why != "",
+						"a success return reached after the subject was read and before the documented write must be justified by a failure ("+why+"); conditions seen: "+fmt.Sprint(controlling(ret.Block())))
+				})
+			}
+		}
 		// data errors
 		allInstrs(f, func(in ssa.Instruction) {
 			call, ok := in.(*ssa.Call)
